@@ -77,7 +77,8 @@ Definition step_verdict (db : list row) (s : cstep) : nat * list row :=
   | COp o ob =>
       match o, ob with
       | Add b, ONone => (0, step db o)
-      | Add b, ORaised => (1, db)
+      | Add b, ORaised => (2, db)     (* an add() nobody interfered with raised: traces that fail to serialise are to be
+                                         skipped, the batch's serialisable traces committed - not lost *)
       | AddAborted b, ORaised => (0, db)
       | Reopen, ONone => (0, db)
       | Reopen, ORaised => (2, db)
